@@ -65,6 +65,8 @@ def main(argv=None):
     known = [k for k in load_known() if k.get("property") == prop]
     opts = dict(getattr(h, "OPTS", {}).get(args.tier, {}))
     opts["known"] = known
+    if args.tier == "thorough" and "cvc5" not in opts:
+        opts["cvc5"] = True
     from vf.symjob import init_worker, run_job
 
     results = []
@@ -168,6 +170,7 @@ def report(prop, h, args, seed, jobs, results, known, pre_res, wall):
             "oracle": meta.get("oracle"),
             "solver": "z3 " + _z3v(),
             "known_findings_reproduced": sorted(known_hits),
+            "cvc5_rechecked": _sum_cvc5(results),
             "inconclusive": [f"{j}: {i}"[:500] for j, i in inconclusive[:20]],
             "preflight": (pre_res or {}).get("info"),
             "explanation": "bounded symbolic model checking of the real /repo source (symx): every feasible path of every job explored, each assertion discharged by z3 over all values of the job's holes",
@@ -200,6 +203,14 @@ def report(prop, h, args, seed, jobs, results, known, pre_res, wall):
         return 2
     print(f"OK {prop}: property held on everything explored")
     return 0
+
+
+def _sum_cvc5(results):
+    out = {}
+    for r in results:
+        for k, v in r.get("cvc5", {}).items():
+            out[k] = out.get(k, 0) + v
+    return out
 
 
 def _z3v():
